@@ -84,6 +84,7 @@ type Frame struct {
 	contract *FuncContract // contract of fn if it is the unit's top function
 	calls   map[string]int // callee name -> count (for ret(callee #k))
 	callRes map[string][]Val
+	callG   map[string]string // path condition of the k-th call to a callee (key callee#k)
 	callArgs map[string]map[string]Val // arguments of the k-th call to a callee under contract, by parameter name
 }
 
